@@ -454,7 +454,9 @@ def _keep_graph_outputs_distinct(ir_model: ir.Model) -> None:
     user-supplied names, so a repeated value gets an Identity of its own.
     """
     graph = ir_model.graph
-    seen: set[int] = set()
+    # a leaf that IS a model input (returned unchanged, or folded back onto it) is repeated too:
+    # the input and the output need names of their own
+    seen: set[int] = {id(v) for v in graph.inputs}
     used = {v.name for node in graph for v in node.outputs if v.name}
     used |= {v.name for v in graph.inputs if v.name}
     for idx, value in enumerate(list(graph.outputs)):
